@@ -14,7 +14,11 @@ import (
 )
 
 const (
-	KeysIndexSep       = "_"
+	// KeysIndexSep joins the elements of a path into the key of an index. It must not be able to
+	// occur within a path element: element names and key values are made of XML characters, which
+	// exclude NUL. A printable separator (formerly "_") makes different paths share one key as soon
+	// as a key value contains it ([k a b_c] and [k a_b c]).
+	KeysIndexSep       = "\x00"
 	DefaultValuesPrio  = int32(math.MaxInt32 - 90)
 	DefaultsIntentName = "default"
 	RunningValuesPrio  = int32(math.MaxInt32 - 100)
